@@ -11,6 +11,7 @@ import json
 import os
 import random
 import shutil
+import sys
 import tempfile
 import threading
 import warnings
@@ -27,6 +28,24 @@ from tawazi import cfg as twz_cfg  # noqa: E402
 import tawazi.node.node as nodemod  # noqa: E402
 
 SEAM_REPORT = seams.install_post()
+
+
+def _simple(v: Any) -> bool:
+    return v is None or isinstance(v, (bool, int, float, str)) or (isinstance(v, tuple) and all(_simple(x) for x in v))
+
+
+# Module-level scalars of the code under test as they are after import.  Every simulated run starts from them: a run must
+# not inherit such state from the previous run in the same worker process (a defect that leaves one behind - e.g. a stale
+# "describing thread" - would otherwise show as nondeterminism between two runs of one schedule instead of as a verdict).
+_SUT_GLOBALS = {(n, k): v for n, m in list(sys.modules.items()) if n.split(".")[0] == "tawazi" and m is not None
+                for k, v in list(vars(m).items()) if not k.startswith("__") and _simple(v)}
+
+
+def _restore_sut_globals() -> None:
+    for (n, k), v in _SUT_GLOBALS.items():
+        m = sys.modules.get(n)
+        if m is not None and k in vars(m) and _simple(vars(m)[k]) and vars(m)[k] != v:
+            setattr(m, k, v)
 warnings.simplefilter("ignore")
 try:
     twz_cfg.TAWAZI_EXECNODE_OUTSIDE_DAG_BEHAVIOR = tawazi.consts.XNOutsideDAGCall.ignore
@@ -584,6 +603,7 @@ class Run:
 
     def execute(self) -> "Run":
         scn = self.scn
+        _restore_sut_globals()
         prev_debug = twz_cfg.RUN_DEBUG_NODES
         twz_cfg.RUN_DEBUG_NODES = bool(scn.get("debug_on", False))
         prev_profile = twz_cfg.TAWAZI_PROFILE_ALL_NODES
